@@ -550,11 +550,16 @@ impl Gen {
             return None;
         }
         let (name, cols) = self.gen_plain_table(6);
-        if self.model.expect_create_table(&name, &cols) != Expect::Ok {
-            return None;
+        match self.model.expect_create_table(&name, &cols) {
+            Expect::Ok => {
+                self.model.apply_create_table(&name, &cols);
+                Some(Op::CreateTable { name, cols })
+            }
+            // e.g. a package without a _Validation table: the outcome is the
+            // implementation's to decide (the generator plans as if refused)
+            Expect::Either => Some(Op::CreateTable { name, cols }),
+            Expect::Err => None,
         }
-        self.model.apply_create_table(&name, &cols);
-        Some(Op::CreateTable { name, cols })
     }
 
     fn op_drop(&mut self) -> Option<Op> {
